@@ -135,8 +135,28 @@ func runC19(c *Ctx) {
 		for _, caller := range c.CG().in[rm] {
 			c.Ob("C19-R4", "Feed.remove called from "+shortFn(caller), c.FnPos(caller), shortFn(caller) == "(*aqua/event.feedSub).Unsubscribe$1", "only the Once-guarded closure may remove a subscription")
 		}
+		// scope wrappers: "no delivery after Unsubscribe / Close has returned" needs the wrapped subscription to be
+		// unsubscribed before the wrapper disappears from the scope's set (Close only waits for what is still tracked),
+		// on every path and unconditionally
+		su := c.Fn("aqua/event:(*scopeSub).Unsubscribe")
+		innerU := callSites(su, `^Subscription\.Unsubscribe$`)
+		var del ssa.Instruction
+		for _, cs := range callSites(su, `^delete$`) {
+			del = cs
+		}
+		okOrder := len(innerU) == 1 && del != nil && instrDominates(innerU[0], del) && innerU[0].Block() == su.Blocks[0]
+		c.Ob("C19-R4", "scopeSub.Unsubscribe unsubscribes the wrapped subscription (unconditionally) before it leaves the scope's set", c.FnPos(su), okOrder,
+			fmt.Sprintf("%d inner Unsubscribe calls; delete found: %v", len(innerU), del != nil))
+		cl := c.Fn("aqua/event:(*SubscriptionScope).Close")
+		c.MustLoopBack("C19-R4", cl, `^Subscription\.Unsubscribe$`, []LitReq{
+			{Name: "SubscriptionScope.Close unsubscribes every tracked subscription", Re: `^call:Subscription\.Unsubscribe$`},
+		})
+		_, _, heldC := lockAnalysis(cl, nil, true)
+		for _, cs := range callSites(cl, `^Subscription\.Unsubscribe$`) {
+			c.Ob("C19-R4", "SubscriptionScope.Close unsubscribes while holding the scope lock (no Track can slip in)", c.Position(cs.Pos()), heldC[cs]["SubscriptionScope#0.mu"], fmt.Sprintf("%v", keysOf(heldC[cs])))
+		}
 	})
-	c.Min("C19-R4", 2)
+	c.Min("C19-R4", 5)
 }
 
 func joinStr(xs []string) string {
